@@ -4,15 +4,16 @@
     clock reading and drift allowance; [tv] = ANY type-level verifier (so: every trust
     predicate, i.e. however far non-adjacent verification succeeds, and every error shape);
     [get i h] = the answer of the getter to its [i]-th request, for height [h]
-    ([None] = error; the answer may have any height unless a hypothesis says otherwise);
+    ([None] = error; the answer may have ANY height: the getter is not trusted to answer with
+    the asked height, the code compares the two and refuses when they differ -- fix F30);
     [subj] = the subjective head, [new] = the candidate; distances are unbounded.
     [syncer_verify] models Syncer.verify (direct Verify; soft failure => verifyBifurcating),
     [incoming] models incomingNetworkHead (verify, then setLocalHead(candidate)).
     [b_calls] = the GetByHeight requests, [b_promoted] = the headers given to setLocalHead. *)
 From GH Require Import Base.Prelude Model.Verify Model.Bifurcate Proofs.VerifyP Proofs.BifurcateP.
 
-(** THE PROPERTY IN ONE STATEMENT, for incomingNetworkHead and a getter that answers with
-    the asked height: the search terminates within [bound D] getter requests; every header
+(** THE PROPERTY IN ONE STATEMENT, for incomingNetworkHead and EVERY getter (no hypothesis on
+    its answers): the search terminates within [bound D] getter requests; every header
     promoted to subjective head passed Verify against the previous one; on Accept the
     promoted getter answers followed by the candidate form a verified chain from the
     subjective head and the candidate is the new sync target; otherwise only getter answers
@@ -21,7 +22,6 @@ Theorem C15_main :
   forall (now drift : Z) (tv : hdr -> hdr -> tvres) (get : nat -> N -> option hdr)
          (new : hdr) (fuel : nat) (subj : hdr),
   h_height new < two64 ->
-  (forall i h x, h_height subj <= h <= h_height new -> get i h = Some x -> h_height x = h) ->
   (fuel_bound (h_height new - h_height subj) <= fuel)%nat ->
   let r := incoming now drift tv get fuel subj new in
   (b_verdict r = Accept \/ exists f, b_verdict r = Refuse f) /\
@@ -35,16 +35,16 @@ Theorem C15_main :
    Verify now drift tv (head_after subj r) new <> None).
 Proof. exact incoming_main. Qed.
 
-(** TERMINATION, bounded requests. If the getter answers with the height it was asked for
-    (the "trusted getter" of the statement; only heights between the two heads matter),
-    then for every trust predicate and every distance D = new - subj the search ends within
-    [bound D = (D+1) * (bits D + 1)] loop iterations: fuel never runs out, and the number of
-    getter requests is at most [bound D]. *)
+(** TERMINATION, bounded requests -- UNCONDITIONAL in the getter: for every getter, whatever
+    it answers (errors, headers of any height, zero headers), every trust predicate and every
+    distance D = new - subj the search ends within [bound D = (D+1) * (bits D + 1)] loop
+    iterations: fuel never runs out, and the number of getter requests is at most [bound D].
+    (The only hypothesis is that the candidate's height is a uint64.) Before fix F30 this needed
+    "the getter answers with the asked height": see C15_ex_wrong_height_getter_refused. *)
 Theorem C15_terminates :
   forall (now drift : Z) (tv : hdr -> hdr -> tvres) (get : nat -> N -> option hdr)
          (new : hdr) (fuel : nat) (subj : hdr),
   h_height new < two64 ->
-  (forall i h x, h_height subj <= h <= h_height new -> get i h = Some x -> h_height x = h) ->
   (fuel_bound (h_height new - h_height subj) <= fuel)%nat ->
   let r := syncer_verify now drift tv get fuel subj new in
   b_verdict r <> OutOfFuel /\
@@ -53,11 +53,10 @@ Proof. exact sverify_terminates. Qed.
 
 (** the same for verifyBifurcating alone, started at any request number with the initial diff *)
 Theorem C15_bifurcate_terminates :
-  forall (now drift : Z) (tv : hdr -> hdr -> tvres) (get : nat -> N -> option hdr) (new : hdr) (s0 : N),
+  forall (now drift : Z) (tv : hdr -> hdr -> tvres) (get : nat -> N -> option hdr) (new : hdr),
   h_height new < two64 ->
-  (forall i h x, s0 <= h <= h_height new -> get i h = Some x -> h_height x = h) ->
   forall (i : nat) (subj : hdr) (fuel : nat),
-  s0 <= h_height subj -> h_height subj <= h_height new ->
+  h_height subj <= h_height new ->
   (fuel_bound (h_height new - h_height subj) <= fuel)%nat ->
   let r := bifurcate now drift tv get fuel i subj new (h_height new - h_height subj) in
   b_verdict r <> OutOfFuel /\
@@ -116,6 +115,18 @@ Theorem C15_getter_failure_refuses :
   nth_error (b_calls r) k = Some (h, sid) -> get k h = None ->
   b_verdict r = Refuse FGetter /\ length (b_calls r) = S k.
 Proof. exact sverify_getter_failure. Qed.
+
+(** REFUSED when the getter answers with another height than asked (fix F30): if the k-th request
+    of the run was answered with a non-zero header whose height is not the asked one, the verdict
+    is the height refusal and that request was the last -- the answer is neither verified nor
+    promoted, and the search does not go on. *)
+Theorem C15_wrong_height_answer_refuses :
+  forall (now drift : Z) (tv : hdr -> hdr -> tvres) (get : nat -> N -> option hdr)
+         (new : hdr) (fuel : nat) (subj : hdr) (k : nat) (h sid : N) (x : hdr),
+  let r := syncer_verify now drift tv get fuel subj new in
+  nth_error (b_calls r) k = Some (h, sid) -> get k h = Some x -> h_nil x = false -> h_height x <> h ->
+  b_verdict r = Refuse FHeight /\ length (b_calls r) = S k.
+Proof. exact sverify_wrong_height. Qed.
 
 (** SOFT FAILURES ONLY TRIGGER BIFURCATION: direct success accepts without any request;
     a direct failure that is not soft is returned as is, without any request or promotion. *)
@@ -204,14 +215,13 @@ Theorem C15_head_request_path :
   (b_verdict r <> Accept -> ans = subj).
 Proof. exact head_soft_spec. Qed.
 
-(** A REFUSED CANDIDATE NEVER BECOMES THE HEAD (getter answering with the asked heights): it is
+(** A REFUSED CANDIDATE NEVER BECOMES THE HEAD (every getter): it is
     not the answer of the head request, it is not among the headers given to setLocalHead
     (so it is neither stored nor a sync target), and Syncer.Head() afterwards is not it. *)
 Theorem C15_refused_candidate_never_head :
   forall (now drift : Z) (tv : hdr -> hdr -> tvres) (get : nat -> N -> option hdr)
          (new : hdr) (fuel : nat) (subj : hdr),
   h_height new < two64 ->
-  (forall i h x, h_height subj <= h <= h_height new -> get i h = Some x -> h_height x = h) ->
   subj <> new ->
   let '(r, ans) := head_soft now drift tv get fuel subj new in
   b_verdict r <> Accept ->
@@ -266,13 +276,14 @@ Example C15_ex_getter_failure :
   map h_height (b_promoted r) = [12].
 Proof. vm_compute. repeat split. Qed.
 
-(** why termination needs the "answers with the asked height" hypothesis: a getter that
-    answers every request with a far-away header (each time rejected softly) keeps the
-    loop of the code spinning at diff = 0 -- every amount of fuel is exhausted *)
-Example C15_ex_wrong_height_getter_spins :
-  forall fuel, b_verdict (syncer_verify 1000 0 (ex_tv 3) (fun _ _ => Some (ex_c 500)) fuel (ex_c 10) (ex_c 30))
-               = OutOfFuel.
-Proof. exact spin_example. Qed.
+(** the witness of finding F30: a getter that answers every request with a far-away header (each
+    time rejected softly) kept the loop of the unfixed code spinning at diff = 0 -- every amount of
+    fuel was exhausted. With the height check the first answer (height 500 for the asked 20) ends
+    the search: one request, nothing promoted, refused -- for every positive amount of fuel *)
+Example C15_ex_wrong_height_getter_refused :
+  forall fuel, syncer_verify 1000 0 (ex_tv 3) (fun _ _ => Some (ex_c 500)) (S fuel) (ex_c 10) (ex_c 30)
+               = BRun (Refuse FHeight) [(20, 10)] [].
+Proof. exact refused_example. Qed.
 
 (** why the iff is stated over the intermediates the search obtains and not as "some verified
     path through getter answers exists": the halving search is not exhaustive. With a trust
@@ -312,6 +323,7 @@ Print Assumptions C15_sound.
 Print Assumptions C15_only_verified_promoted.
 Print Assumptions C15_refuses_unverifiable.
 Print Assumptions C15_getter_failure_refuses.
+Print Assumptions C15_wrong_height_answer_refuses.
 Print Assumptions C15_soft_only_bifurcates.
 Print Assumptions C15_complete.
 Print Assumptions C15_refuses_forged.
